@@ -261,3 +261,39 @@ func Verif_C07_Effects() {
 	verifsym.Observe("log", vState.log)
 	verifsym.Reach("end")
 }
+
+// Verif_C02_IOFaults: an I/O failure while writing - the destination of one of
+// the two generators, or gengo.sum itself, cannot be opened - is reported by
+// Execute; when a generated file could not be written gengo.sum is left
+// untouched (the run did not complete), and the other package sources are
+// never modified.
+func Verif_C02_IOFaults() {
+	vReset()
+	w := vNewWorld()
+	w.addPkg("p", true, "h1:new-p", nil, []string{"p.go", vBase + ".ga.go", vBase + ".gb.go"},
+		[]vTypeSpec{{name: "A", tags: vBoth}})
+	pp := "example.com/m/p"
+	vSet("ga", pp, "A", vActRender)
+	vSet("gb", pp, "A", vActRender)
+	sumPath := w.root + "/gengo.sum"
+	verifsym.FSPut(sumPath, "example.com/m/p h1:old\n")
+	which := verifsym.IntRange(0, 2)
+	switch which {
+	case 0:
+		verifsym.FSFailOpen(vGenFile(w, "p", "ga"))
+	case 1:
+		verifsym.FSFailOpen(vGenFile(w, "p", "gb"))
+	case 2:
+		verifsym.FSFailOpen(sumPath)
+	}
+	src, _ := verifsym.FSGet(w.root + "/p/p.go")
+	err := w.exec(true, true, nil, &vGenA{}, &vGenB{})
+	verifsym.Assert(err != nil, "an I/O failure while writing the output is not reported")
+	if which < 2 {
+		d, ok := verifsym.FSGet(sumPath)
+		verifsym.Assert(ok && d == "example.com/m/p h1:old\n", "gengo.sum rewritten although a generated file could not be written")
+	}
+	after, ok := verifsym.FSGet(w.root + "/p/p.go")
+	verifsym.Assert(ok && after == src, "a source file was modified")
+	verifsym.Reach("end")
+}
